@@ -1,4 +1,5 @@
 import Juniper.Proofs.IterComb
+import Juniper.Proofs.IterGuards
 /-!
 # Reducers of `iterator.go` (C07): Reduce, Collect, One, Equal
 -/
@@ -99,7 +100,7 @@ theorem one_den {m : IM σ α} {cost : σ → Nat} {s : σ} {L : List (α × Nat
     refine ⟨F1, fun fuel hf => ?_⟩
     have := h1 fuel hf
     simp only at this
-    simp only [one, List.map_nil]
+    simp only [one_eq, List.map_nil]
     rcases hd : drive m fuel s with ⟨r, s1⟩
     rw [hd] at this
     simp only at this
@@ -129,7 +130,7 @@ theorem one_den {m : IM σ α} {cost : σ → Nat} {s : σ} {L : List (α × Nat
       rw [e1]
       exact drive_mono e1 fuel (by omega)
     have h3 := h2 fuel (by omega)
-    simp only [one, hmono]
+    simp only [one_eq, hmono]
     rcases hd : drive m F1 s with ⟨r, s1⟩
     rw [hd] at hF1 h3
     simp only at hF1 h3
